@@ -618,7 +618,9 @@ class CarbonClientManager(Service):
     if factory is None or destination is None:
       return None
 
-    self.router.removeDestination(destination)
+    # With a dynamic router only destinations that are up are in the router.
+    if self.router.hasDestination(destination):
+      self.router.removeDestination(destination)
     stopCompleted = factory.disconnect()
     stopCompleted.addCallbacks(
         lambda result: self.disconnectClient(destination), log.err
